@@ -1,5 +1,7 @@
 
 import numpy as np
+
+from ...util import hashobj
 from .ancillary_feature import AncillaryFeature
 
 
@@ -92,6 +94,9 @@ def has_ml_scores(mm):
         # the performance impact is probably negligible.
         candidates = AncillaryFeature.get_instances(feat)
         idlist.append((feat, [c.hash(mm) for c in candidates]))
+        # The score data themselves (e.g. when the user replaces a
+        # temporary feature)
+        idlist.append(hashobj(mm[feat]))
     return idlist
 
 
